@@ -85,19 +85,32 @@ def good_for_spec(spec):
 
 
 def base_instance(cls, depth=2, stack=()):
+    """Instance with every declared attribute set to a type-appropriate value and one instance of every declared
+    child down to `depth`; below that only the children the class declares as required (c_cardinality min >= 1),
+    so that the instance satisfies every declared occurrence bound.  Cycles are cut."""
     x = cls()
     for xmlattr, (name, typ, req) in cls.c_attributes.items():
         setattr(x, name, good_value(typ))
-    if depth > 0:
-        for tag, (name, spec) in cls.c_children.items():
-            k = spec[0] if isinstance(spec, list) else spec
-            if k is None or k in stack:
-                continue
-            child = base_instance(k, depth - 1, stack + (cls,))
-            if isinstance(spec, list):
-                setattr(x, name, [child])
-            else:
-                setattr(x, name, child)
+    for tag, (name, spec) in cls.c_children.items():
+        k = spec[0] if isinstance(spec, list) else spec
+        if k is None:
+            continue
+        card = cls.c_cardinality.get(name) or {}
+        try:
+            cmin = int(card.get('min') or 0)
+        except (TypeError, ValueError):
+            cmin = 0
+        if depth <= 0 and cmin < 1:
+            continue
+        if k in stack and cmin < 1:
+            continue
+        if len(stack) > 12:
+            continue
+        n = max(1, cmin)
+        if isinstance(spec, list):
+            setattr(x, name, [base_instance(k, depth - 1, stack + (cls,)) for _ in range(n)])
+        else:
+            setattr(x, name, base_instance(k, depth - 1, stack + (cls,)))
     if cls.c_value_type:
         x.text = good_for_spec(cls.c_value_type)
     elif not cls.c_children:
